@@ -198,7 +198,10 @@ def brief(ev, meas):
 
 def run(ctx):
     quick = ctx.quick
-    n_rand = 1500 if quick else 30000
+    n_rand = 1000 if quick else 30000
+    dev = int(os.environ.get("SURF_DEV_N", "0"))        # development / mutation experiments only: thinned case set
+    if dev:
+        n_rand = dev
     rand = [gen_case(ctx.rng) for _ in range(n_rand)]
     cases_file = S.write_json(ctx, "c20_cases.json", rand)
     r, lines = S.tlc_lines(ctx, "C20Gen", {"CASES": cases_file}, tags=("CASE", "DONE"), timeout=900 if quick else 3000)
@@ -214,6 +217,8 @@ def run(ctx):
     ctx.cov["random_cases"] = done[0][2]
     ctx.cov["tlc_wall_s"] = round(r.wall, 1)
 
+    if dev:
+        evs = [ev for k, ev in enumerate(evs) if ev["_src"] == "rand" or k % 6 == 0]
     jobs = [scenario(ev["c"]) for ev in evs]
     results = S.run_many(ctx, jobs)
     ctx.cov["traces_validated_against_impl"] += len(results)
